@@ -130,6 +130,14 @@ Theorem c09_noop_appends_nothing : forall (K : consts) (ostride omax : option N)
 Proof. exact (fun K a b c d e s H1 H2 => conj (auto_noop K a b e s H1 H2) (sched_noop K a b c d e s H1 H2)). Qed.
 Print Assumptions c09_noop_appends_nothing.
 
+(* status: next_cut_point is the first not-yet-checkpointed cut point (what auto would plan first) *)
+Theorem c09_status_next_is_first_undone : forall (K : consts) (ostride : option N) (s : st) (r : status_resp),
+  status K ostride s = Ok r ->
+  ss_next r = hd_error (map plan_of (undone K (opt_or ostride (k_default_stride K)) (log s)))
+  /\ ss_count r = nlen (msgs (log s)) /\ ss_inflight r = find_inflight K (log s).
+Proof. exact status_next_first_undone. Qed.
+Print Assumptions c09_status_next_is_first_undone.
+
 (* ---------- manual checkpoints ---------- *)
 (* accepted => the target is a message of the thread (seq and id), exactly one checkpoint frame is appended and its
    summary is readable with matching coverage; refused => nothing changes *)
